@@ -63,22 +63,40 @@ def cmd_verify(i):
     return res['confirmed']
 
 
-def cmd_detect(i, tier='quick'):
+def cmd_detect(i, tier='quick', in_repo=False):
+    """default: apply the patch in a scratch worktree and point the check at it (PLOTINK_REPO);
+    --in-repo: apply to /repo itself and undo afterwards (only when nothing else is using /repo)"""
     d = sdir(i)
     m = json.load(open(os.path.join(d, 'meta.json')))
     prop = m['property']
-    rc, out = sh(['git', '-C', REPO, 'status', '--porcelain', '--untracked-files=no'])
-    assert out.strip() == '', '/repo has local modifications: ' + out
     t0 = time.time()
-    try:
-        rc, out = sh(['git', '-C', REPO, 'apply', os.path.join(d, 'patch.diff')])
+    env = dict(os.environ)
+    wt = None
+    if in_repo:
+        rc, out = sh(['git', '-C', REPO, 'status', '--porcelain', '--untracked-files=no'])
+        assert out.strip() == '', '/repo has local modifications: ' + out
+        target = REPO
+    else:
+        wt = tempfile.mkdtemp(prefix='seedwt_', dir='/tmp')
+        os.rmdir(wt)
+        rc, out = sh(['git', '-C', REPO, 'worktree', 'add', '--detach', wt, 'HEAD'])
         assert rc == 0, out
-        rc, out = sh(['./check', prop, '--tier', tier], cwd=VERIF, timeout=7200)
+        target = wt
+        env['PLOTINK_REPO'] = wt
+    try:
+        rc, out = sh(['git', '-C', target, 'apply', os.path.join(d, 'patch.diff')])
+        assert rc == 0, out
+        rc, out = sh(['./check', prop, '--tier', tier], cwd=VERIF, timeout=7200, env=env)
     finally:
-        sh(['git', '-C', REPO, 'checkout', '--', '.'])
+        if in_repo:
+            sh(['git', '-C', REPO, 'checkout', '--', '.'])
+        else:
+            sh(['git', '-C', REPO, 'worktree', 'remove', '--force', wt])
+            shutil.rmtree(wt, ignore_errors=True)
     viol = [l for l in out.split('\n') if l.startswith('VIOLATION')]
     res = {'check_rc': rc, 'violation_line': viol[0] if viol else None, 'wall_s': round(time.time() - t0, 1),
-           'with_failing_input': bool(viol) and 'no-failing-input-found' not in viol[0], 'tier': tier}
+           'with_failing_input': bool(viol) and 'no-failing-input-found' not in viol[0], 'tier': tier,
+           'applied_to': 'repo' if in_repo else 'scratch worktree via PLOTINK_REPO'}
     rp = os.path.join(VERIF, 'replays', f'{prop}.json')
     if viol and os.path.exists(rp):
         r = json.load(open(rp))
@@ -123,7 +141,8 @@ if __name__ == '__main__':
         ok = all([cmd_verify(i) for i in sys.argv[2:]])
         sys.exit(0 if ok else 1)
     elif c == 'detect':
-        for i in sys.argv[2:]:
-            cmd_detect(i)
+        args = [a for a in sys.argv[2:] if not a.startswith('--')]
+        for i in args:
+            cmd_detect(i, in_repo='--in-repo' in sys.argv)
     elif c == 'table':
         cmd_table()
